@@ -145,11 +145,10 @@ Inductive ending :=
 | EStopped                                   (* stopped: 503 (with message) *)
 | ENoTarget                                  (* no healthy target / claim refused: 503 *)
 | EProxied (t : target_info) (b : target_behaviour)   (* claimed: whatever the target does *)
+| EProxiedHints (t : target_info) (s : N) (body : str)   (* claimed: 103 Early Hints, then a complete response *)
 | EReqTooLarge (t : target_info)             (* request buffering: 413 by http.Error *)
 | EReqReadError (t : target_info)            (* request buffering: body read failed: 500 by http.Error *)
 | EUpgraded (t : target_info).               (* 101 from the target: hijacked *)
-
-Definition lenN' (s : str) : N := lenN s.
 
 Definition wev_op (e : wev) : list wop :=
   match e with
@@ -157,8 +156,6 @@ Definition wev_op (e : wev) : list wop :=
   | WWriteHeader s => [OpWriteHeader s]
   | WWrite b => [OpWrite (lenN b) (lenN b)]
   end.
-
-Definition redirect_body_note : str := bs "<a href=...>Moved Permanently</a>.".
 
 Definition claim_ctx (svc : str) (t : target_info) : lctx :=
   mkCtx svc (ti_name t) (canonicalize_names (ti_log_req t)) (canonicalize_names (ti_log_resp t)).
@@ -179,6 +176,15 @@ Definition chain (svc : str) (c : chain_cfg) (redirect_len : N) (e : ending) : l
   | EProxied t b =>
     let o := serve c b in
     (claim_ctx svc t, flat_map wev_op (o_events o), if o_aborted o then HPanic else HReturn)
+  | EProxiedHints t s body =>
+    (* ReverseProxy passes the informational header on (Got1xxResponse: rw.WriteHeader(103)), then the
+       final one; the response-buffer middleware, if any, sits in between *)
+    let hops := [HWriteHeader 103 false; HWriteHeader s false; HWrite body] in
+    (claim_ctx svc t,
+     flat_map wev_op (if c_buffer_resp c
+                      then flat_map cev_wev (fst (resp_mw (c_maxm c) (c_max_resp c) hops))
+                      else flat_map hop_wev hops),
+     HReturn)
   | EReqTooLarge t => (claim_ctx svc t, [OpWriteHeader 413; OpWrite 18 18], HReturn)   (* "Request too large\n" *)
   | EReqReadError t => (claim_ctx svc t, [OpWriteHeader 500; OpWrite 22 22], HReturn)  (* "Internal Server Error\n" *)
   | EUpgraded t => (claim_ctx svc t, [OpHijack true], HReturn)
@@ -189,6 +195,6 @@ Definition used_service (svc : str) (e : ending) : str :=
   match e with ENoRoute => [] | _ => svc end.
 Definition used_target (e : ending) : str :=
   match e with
-  | EProxied t _ | EReqTooLarge t | EReqReadError t | EUpgraded t => ti_name t
+  | EProxied t _ | EProxiedHints t _ _ | EReqTooLarge t | EReqReadError t | EUpgraded t => ti_name t
   | _ => []
   end.
